@@ -8,15 +8,15 @@
    The marker grammar (MText.p_marker) is used as a black box: the marker text is any text the stand-alone marker parser accepts.
 
    Known gap D7 (kept as a finding, excluded by the hypotheses rq_no_d7 / rq_no_gap): a "===" clause directly followed by a comma.
-   NOT PROVED here (hypothesis rq_marker_rt of C08_str_roundtrip): that the string form of the marker parses back to a marker with the
-   same string form - that is the round-trip clause of C09 (marker domain); it is discharged below only for marker-free requirements. *)
+   The marker side of the str round trip (hypothesis rq_marker_rt of C08_str_roundtrip) is the round-trip clause of C09; it is discharged
+   in C08_str_roundtrip_all by the marker domain's theorem MkRoundP.parsed_marker_roundtrip. *)
 From Coq Require Import List Arith NArith Bool Lia.
 Import ListNotations.
 Require Import MText MkModel.
 Require Names.
 Require Import VParse SpecParse SpecSound SpecContains.
 Require Import VComplete VTop VTop2.
-Require Import ReqModel ReqSpec ReqScanP ReqTokP ReqListP ReqMarkP ReqParseP ReqSetP ReqTopP ReqEqP ReqSoundP ReqRoundP ReqPep440P.
+Require Import ReqModel ReqSpec ReqScanP ReqTokP ReqListP ReqMarkP ReqParseP ReqSetP ReqTopP ReqEqP ReqSoundP ReqRoundP ReqPep440P ReqRoundFullP.
 Open Scope N_scope.
 
 (* 1. however whitespace is laid out, the grammar recovers name, extras, the text of exactly the clause list, URL and the marker as the
@@ -94,6 +94,12 @@ Theorem C08_str_roundtrip_given_C09 : rq_c09_roundtrip ->
   exists r', Requirement (req_str r) = RqOk r' /\ req_eq r r' = true /\ req_str r' = req_str r.
 Proof. exact str_roundtrip_given_c09. Qed.
 Print Assumptions C08_str_roundtrip_given_C09.
+(* ... and with the marker domain's theorem MkRoundP.parsed_marker_roundtrip plugged in: every constructed requirement outside the
+   known gap D7 *)
+Theorem C08_str_roundtrip_all src r : Requirement src = RqOk r -> rq_no_gap r ->
+  exists r', Requirement (req_str r) = RqOk r' /\ req_eq r r' = true /\ req_str r' = req_str r.
+Proof. exact (str_roundtrip_full src r). Qed.
+Print Assumptions C08_str_roundtrip_all.
 Corollary C08_str_roundtrip_no_marker src r : Requirement src = RqOk r -> rq_no_gap r -> q_marker r = None ->
   exists r', Requirement (req_str r) = RqOk r' /\ req_eq r r' = true /\ req_str r' = req_str r.
 Proof. intros H G M. apply (str_roundtrip src r H G). now rewrite M. Qed.
